@@ -85,6 +85,12 @@ def domain(ty):
             vals = [ty(b""), ty(b"\x01\x02")]
         elif issubclass(ty, list):
             vals = [ty([])]
+            try:
+                one = ty([1])
+                one.serialize()
+                vals.append(one)
+            except Exception:  # noqa
+                pass
         else:
             return None
         out, seen = [], set()
@@ -138,7 +144,7 @@ def small_universe():
         doms = [domain(p.type)[:2] for p in cls.schema]
         assert len(names) == 3 and all(len(d) == 2 for d in doms)
         for combo in itertools.product(*[[None] + d for d in doms]):
-            pats.append(cls(partial=True, **{n: v for n, v in zip(names, combo) if v is not None}))
+            pats.append(mk_pat(cls, {n: v for n, v in zip(names, combo) if v is not None}))
         for combo in itertools.product(*doms):
             cmds.append(cls(**dict(zip(names, combo))))
     return classes, pats, cmds
@@ -402,12 +408,29 @@ def check_listener(ctx, pats, masks, cmds, cmd_targets, lists, bucket):
 
 
 # ---------------------------------------------------------------------------------------------------------------
+READBACK_BAD = []      # (class, written kwargs, parameter, what the pattern reads back)
+
+
+def mk_pat(cls, kw):
+    """A partial command written with exactly the parameters kw; records it when the object does not hold what it was
+    given (a pattern that silently drops a specified parameter matches commands that disagree with it on that parameter)."""
+    p = cls(partial=True, **kw)
+    for prm in cls.schema:
+        got = getattr(p, prm.name)
+        want = kw.get(prm.name)
+        same = (got is None and want is None) or (got is not None and want is not None and
+                                                  bytes(got.serialize()) == bytes(want.serialize()))
+        if not same and len(READBACK_BAD) < 5:
+            READBACK_BAD.append((cls, dict(kw), prm.name, got))
+    return p
+
+
 def random_pattern(rng, cls, doms, p_spec=0.5):
     kw = {}
     for prm, d in zip(cls.schema, doms):
         if d and rng.random() < p_spec:
             kw[prm.name] = rng.choice(d)
-    return cls(partial=True, **kw)
+    return mk_pat(cls, kw)
 
 
 def real_class_cases(ctx, n_lists):
@@ -442,10 +465,10 @@ def real_class_cases(ctx, n_lists):
         names = list(base)
         rng.shuffle(names)
         for k in range(0, len(names) + 1):
-            pats.append(cls(partial=True, **{n: base[n] for n in names[:k]}))
+            pats.append(mk_pat(cls, {n: base[n] for n in names[:k]}))
         for _ in range(6):
             pats.append(random_pattern(rng, cls, doms, rng.choice([0.2, 0.5, 0.8])))
-        pats.append(cls(partial=True, **{n: base[n] for n in names[:1]}))     # equal but distinct object
+        pats.append(mk_pat(cls, {n: base[n] for n in names[:1]}))     # equal but distinct object
         oth = rng.choice(others) if others else None
         if oth is not None:
             for _ in range(2):
@@ -530,6 +553,31 @@ def run(chk):
     for s, b in ctx.bad.items():
         if s not in ctx.mon:
             chk.broken.append(BuildBroken("correspondence", "%s: the code differs from the model" % s, json.dumps(b, default=str)[:3000]))
+    # every pattern built above was checked to hold exactly the parameters it was written with
+    rb = READBACK_BAD[0] if READBACK_BAD else None
+    chk.oblige("monitor:a-pattern-holds-exactly-the-parameters-it-was-written-with", rb is None,
+               "%s(partial=True, %s): %s reads back %r" % (rb[0].__qualname__, ", ".join("%s=%r" % kv for kv in rb[1].items()), rb[2], rb[3]) if rb else "")
+    if rb:
+        cls_, kw_, name_, got_ = rb
+        what = ("the pattern %s(partial=True, %s) does not hold what it was written with: parameter %s reads back %r"
+                % (cls_.__qualname__, ", ".join("%s=%r" % kv for kv in kw_.items()), name_, got_))
+        witness = None
+        try:
+            p_ = cls_(partial=True, **kw_)
+            full = {}
+            for prm in cls_.schema:
+                d_ = domain(prm.type) or []
+                alt = [v for v in d_ if prm.name not in kw_ or bytes(v.serialize()) != bytes(kw_[prm.name].serialize())]
+                full[prm.name] = (alt or d_)[0] if prm.name == name_ else (kw_.get(prm.name) or d_[0])
+            cmd_ = cls_(**full)
+            if kw_.get(name_) is not None and alt and bool(p_.matches(cmd_)):
+                witness = str(cmd_)
+                what += "; it therefore matches %s, which disagrees with it on %s" % (cmd_, name_)
+        except Exception:  # noqa
+            pass
+        chk.violation(what, {"class": cls_.__qualname__, "written_with": {k: repr(v) for k, v in kw_.items()},
+                             "parameter": name_, "reads_back": repr(got_), "wrongly_matched_command": witness},
+                      key="readback:%s:%s" % (cls_.__qualname__, name_))
     chk.sample({"pattern": str(pats[5]), "target": str(cmds[1]), "matches": bool(pats[5].matches(cmds[1]))})
     chk.sample({"dedup_in": [str(pats[i]) for i in (4, 1, 0, 30)],
                 "dedup_out": [str(x) for x in impl_dedup([pats[i] for i in (4, 1, 0, 30)])[0]]})
